@@ -73,8 +73,14 @@ class Optional {
       : state_{std::move(other.state_)} {}
 
   // Constructs a non-empty Optional from a type U such that T{U()} is valid.
-  template <typename U, typename Enabled = std::enable_if_t<
-                            std::is_constructible<T, U>::value>>
+  // Optionals of this type (and types derived from it) are excluded so that
+  // copying or moving a non-const Optional selects the copy/move constructor
+  // even when T is constructible from the Optional itself (e.g. T = bool
+  // through the explicit operator bool).
+  template <typename U,
+            typename Enabled = std::enable_if_t<
+                std::is_constructible<T, U>::value &&
+                !std::is_base_of<Optional, std::decay_t<U>>::value>>
   constexpr Optional(U&& value) : state_{InPlace{}, std::forward<U>(value)} {}
 
   // In-place constructor with arbitrary argument forwarding.
@@ -152,10 +158,13 @@ class Optional {
     return *this;
   }
 
-  // Copy/move assignment from type U.
+  // Copy/move assignment from type U. Optionals of this type are handled by the
+  // copy/move assignment operators above.
   template <typename U>
-  std::enable_if_t<std::is_constructible<T, U>::value, Optional&> operator=(
-      U&& value) {
+  std::enable_if_t<std::is_constructible<T, U>::value &&
+                       !std::is_base_of<Optional, std::decay_t<U>>::value,
+                   Optional&>
+  operator=(U&& value) {
     Assign(std::forward<U>(value));
     return *this;
   }
